@@ -367,9 +367,13 @@ pub fn run(ctx: &Ctx) -> Report {
         let mut tables: Vec<Vec<(i64, i32)>> = vec![];
         for x1 in [m, m - 1, m - 2] {
             for d in [sp, sp - 1, sp + 1, 1, 0, -1, sp / 2] {
+                let x0 = match x1.checked_sub(d) {
+                    Some(x0) => x0,
+                    None => continue,
+                };
                 for (c0, c1) in [(1, 2), (-1, -2), (1, 0), (-1, 0)] {
-                    tables.push(vec![(x1 - d, c0), (x1, c1)]);
-                    tables.push(vec![(0, 1), (x1 - d, if c0 > 0 { 2 } else { 0 }), (x1, if c0 > 0 { 3 } else { -1 })]);
+                    tables.push(vec![(x0, c0), (x1, c1)]);
+                    tables.push(vec![(0, 1), (x0, if c0 > 0 { 2 } else { 0 }), (x1, if c0 > 0 { 3 } else { -1 })]);
                 }
             }
         }
